@@ -72,8 +72,9 @@ OBLIGATIONS.update({
         ('common::read_to_value', 'body'),
     ],
     'C13': [
-        ('common::read_to_value', 'body'), ('common::CborSerializable::from_slice', 'body'), ('common::CborSerializable::to_vec', 'body'),
-        ('common::TaggedCborSerializable::from_tagged_slice', 'body'), ('common::TaggedCborSerializable::to_tagged_vec', 'body'),
+        ('common::read_to_value', 'body'),
+        # the trait default methods AND any override of them in an impl (checked against the trait-level postconditions)
+        ('*::from_slice', 'body'), ('*::to_vec', 'body'), ('*::from_tagged_slice', 'body'), ('*::to_tagged_vec', 'body'),
         ('header::ProtectedHeader::from_cbor_bstr_nested', 'body'),
         ('vlemmas::lemma_suffix_is_extraneous', 'lemma'), ('vlemmas::lemma_proper_prefix_rejected', 'lemma'),
     ],
@@ -102,7 +103,7 @@ OBLIGATIONS['C05'] += [('encrypt::CoseRecipient::decrypt__nec_ciphertext', 'nec'
                        ('encrypt::CoseEncrypt::decrypt__nec_ciphertext', 'nec'), ('encrypt::CoseEncrypt0::decrypt__nec_ciphertext', 'nec'),
                        ('encrypt::CoseRecipientBuilder::aad__nec_context', 'nec')]
 OBLIGATIONS['C19'] = [
-    ('*Builder::*', 'body'),
+    ('*Builder::*', 'body'), ('header::lemma_builder_iv_exclusive', 'lemma'),
     ('header::HeaderBuilder::value__nec_reserved', 'nec'), ('key::CoseKeyBuilder::param__nec_reserved', 'nec'),
     ('cwt::ClaimsSetBuilder::claim__nec_reserved', 'nec'), ('cwt::ClaimsSetBuilder::private_claim__nec_private', 'nec'),
     ('key::KeyType::default', 'body'), ('common::Algorithm::default', 'body'),
@@ -154,6 +155,9 @@ OBLIGATIONS['C12'] = [
     ('header::Header::from_cbor_value_nested', 'body'), ('header::Header::from_cbor_value', 'body'), ('header::lemma_hdr_final', 'lemma'), ('header::lemma_hdr_inv_step', 'lemma'),
     ('key::CoseKey::from_cbor_value', 'body'), ('cwt::ClaimsSet::from_cbor_value', 'body'),
     ('header::ProtectedHeader::from_cbor_bstr_nested', 'body'), ('sign::CoseSignature::from_cbor_value_nested', 'body'),
+    # error kind: when the first defect in wire order is a repeated label the error is DuplicateMapKey
+    ('header::lemma_bad_pair_no_dup', 'lemma'), ('header::lemma_iv_both_no_dup', 'lemma'), ('header::lemma_all_distinct_no_dup', 'lemma'), ('header::lemma_not_map_no_dup', 'lemma'),
+    ('key::lemma_key_bad_pair_no_dup', 'lemma'), ('key::lemma_key_all_distinct_no_dup', 'lemma'), ('cwt::lemma_claims_bad_pair_no_dup', 'lemma'), ('cwt::lemma_claims_all_distinct_no_dup', 'lemma'),
     # the sets behave as sets because the order is lawful
     ('common::lemma_label_obeys_cmp', 'lemma'), ('common::Label::cmp', 'body'), ('common::Label::from_cbor_value', 'body'),
     # encode: success iff no repeated / typed-clashing extra label; then keys pairwise distinct
@@ -167,7 +171,8 @@ OBLIGATIONS['C12'] = [
 ]
 
 OBLIGATIONS['C20'] = [
-    ('key::CoseKey::canonicalize', 'body'), ('key::lemma_canonical_lex_ascending', 'lemma'), ('key::lemma_typed_before_extra', 'lemma'), ('key::lemma_enc_labels', 'lemma'),
+    ('key::CoseKey::canonicalize', 'body'), ('key::lemma_canonical_lex_ascending', 'lemma'), ('key::lemma_canonical_len_first_ascending', 'lemma'),
+    ('vcbor::lemma_len_first_typed_before_extra', 'lemma'), ('vcbor::lemma_enc_label_above_typed', 'lemma'), ('vcbor::lemma_len_first_equal_is_same', 'lemma'), ('key::lemma_typed_before_extra', 'lemma'), ('key::lemma_enc_labels', 'lemma'),
     ('key::CoseKey::to_cbor_value', 'body'), ('key::CoseKey::from_cbor_value', 'body'), ('key::lemma_key_roundtrip', 'lemma'),
     ('common::Label::cmp', 'body'), ('common::Label::cmp_canonical', 'body'), ('common::lemma_label_cmp_laws', 'lemma'),
     ('vcbor::lemma_label_order_is_encoding_order', 'lemma'), ('vcbor::lemma_cmp_canonical_is_len_first', 'lemma'),
@@ -224,6 +229,16 @@ OBLIGATIONS['C08'] = [
 ]
 # bounded stand-ins run on the real crate (never counted as discharged): property -> replay subcommands
 MEASUREMENTS = {'C01': ['c01-measure']}
+
+# probe sets of the replay crate (concrete inputs on the real crate vs reference implementations written from the RFCs).
+# Used ONLY to look for a failing input after the verifier flagged the property (failed obligation, or undecidable on a
+# changed tree), and as a labelled bounded extra in the thorough tier.  They do not decide anything on the unchanged tree.
+PROBES = {
+    'C02': ['structures', 'headers'], 'C03': ['structures'], 'C04': ['structures'], 'C05': ['structures'], 'C06': ['structures'],
+    'C08': ['headers'], 'C12': ['headers'], 'C09': ['framing', 'headers'], 'C13': ['framing'], 'C14': ['framing'],
+    'C15': ['integers'], 'C16': ['order'], 'C20': ['order'],
+    'C10': ['keys'], 'C18': ['claims', 'integers'], 'C19': ['builders'], 'C07': ['roundtrip'], 'C11': ['roundtrip', 'structures'], 'C01': ['roundtrip', 'framing'],
+}
 
 # items that must FAIL verification (vacuity / soundness canaries), checked on every run
 MUST_FAIL = ['vcanary::canary_false', 'vcanary::canary_axioms']
